@@ -248,3 +248,164 @@ pub fn parts() -> Vec<Box<dyn DynPart>> {
         Box::new(Gen::new(C13 { exhaustive: false }, 20_000, 500_000)),
     ]
 }
+
+// ---------------------------------------------------------------------------------------
+// Part `many-services`: six services with one to four handlers each (17 handler keys whose hashes
+// interleave), random add/remove sequences, every (service, message) pair probed after every step.
+
+macro_rules! wide_msg {
+    ($name:ident) => {
+        #[repr(C)]
+        #[derive(Serialize, Deserialize, Archive, Debug, Clone, PartialEq)]
+        #[archive(check_bytes)]
+        pub struct $name(pub u32);
+    };
+}
+wide_msg!(M0);
+wide_msg!(M1);
+wide_msg!(M2);
+wide_msg!(M3);
+
+macro_rules! wide_service {
+    ($svc:ident, $tag:expr, [$(($msg:ty, $mtag:expr)),+]) => {
+        pub struct $svc;
+        impl RpcService for $svc {
+            fn register_handlers(r: &mut ServiceRegistry<Self>) {
+                $( r.add_handler::<$msg>(); )+
+            }
+        }
+        $(
+            #[datacake_rpc::async_trait]
+            impl Handler<$msg> for $svc {
+                type Reply = Tag;
+                async fn on_message(&self, msg: Request<$msg>) -> Result<Tag, Status> {
+                    Ok(Tag($tag, $mtag, msg.0.value()))
+                }
+            }
+        )+
+    };
+}
+wide_service!(W0, 10, [(M0, 0), (M1, 1), (M2, 2), (M3, 3)]);
+wide_service!(W1, 11, [(M0, 0)]);
+wide_service!(W2, 12, [(M1, 1), (M2, 2)]);
+wide_service!(W3, 13, [(M3, 3)]);
+wide_service!(W4, 14, [(M0, 0), (M2, 2), (M3, 3)]);
+wide_service!(W5, 15, [(M1, 1)]);
+
+pub struct Wide;
+
+macro_rules! wide_probe {
+    ($out:ident, $channel:expr, $svc:ty, $tag:expr, $msg:ident, $mtag:expr, $n:expr) => {
+        $out.push(($tag, $mtag, RpcClient::<$svc>::new($channel.clone()).send(&$msg($n)).await.map(|v| Tag(v.0, v.1, v.2.value()))));
+    };
+}
+
+async fn run_wide(case: &Case) -> Outcome {
+    let addr: SocketAddr = ([10, 3, 0, 2], 7000).into();
+    let server = Server::listen(addr).await.expect("listen");
+    let mut registered: BTreeSet<u8> = BTreeSet::new();
+    let mut removal_with_other = false;
+    for (i, s) in case.seq.iter().enumerate() {
+        let svc = s % 6;
+        let add = *s < 6;
+        match (add, svc) {
+            (true, 0) => server.add_service(W0),
+            (true, 1) => server.add_service(W1),
+            (true, 2) => server.add_service(W2),
+            (true, 3) => server.add_service(W3),
+            (true, 4) => server.add_service(W4),
+            (true, _) => server.add_service(W5),
+            (false, 0) => server.remove_service(<W0 as RpcService>::service_name()),
+            (false, 1) => server.remove_service(<W1 as RpcService>::service_name()),
+            (false, 2) => server.remove_service(<W2 as RpcService>::service_name()),
+            (false, 3) => server.remove_service(<W3 as RpcService>::service_name()),
+            (false, 4) => server.remove_service(<W4 as RpcService>::service_name()),
+            (false, _) => server.remove_service(<W5 as RpcService>::service_name()),
+        }
+        if add {
+            registered.insert(10 + svc);
+        } else {
+            if registered.iter().any(|r| *r != 10 + svc) && registered.contains(&(10 + svc)) {
+                removal_with_other = true;
+            }
+            registered.remove(&(10 + svc));
+        }
+        let channel = Channel::connect(addr);
+        let n = i as u32 + 1;
+        let mut out: Vec<(u8, u8, Result<Tag, Status>)> = vec![];
+        wide_probe!(out, channel, W0, 10, M0, 0, n);
+        wide_probe!(out, channel, W0, 10, M1, 1, n);
+        wide_probe!(out, channel, W0, 10, M2, 2, n);
+        wide_probe!(out, channel, W0, 10, M3, 3, n);
+        wide_probe!(out, channel, W1, 11, M0, 0, n);
+        wide_probe!(out, channel, W2, 12, M1, 1, n);
+        wide_probe!(out, channel, W2, 12, M2, 2, n);
+        wide_probe!(out, channel, W3, 13, M3, 3, n);
+        wide_probe!(out, channel, W4, 14, M0, 0, n);
+        wide_probe!(out, channel, W4, 14, M2, 2, n);
+        wide_probe!(out, channel, W4, 14, M3, 3, n);
+        wide_probe!(out, channel, W5, 15, M1, 1, n);
+        let step = format!("after step {i} ({} W{})", if add { "add" } else { "remove" }, svc);
+        for (svc_tag, msg_tag, res) in out {
+            let want = registered.contains(&svc_tag);
+            match res {
+                Ok(tag) => {
+                    ensure!(want, "served-while-unregistered", "{step}: message M{msg_tag} of W{} served by {:?} although it is not registered (registered: {:?})", svc_tag - 10, tag, registered);
+                    ensure!(tag == Tag(svc_tag, msg_tag, n), "served-by-wrong-handler", "{step}: message M{msg_tag} sent to W{} answered by {:?}", svc_tag - 10, tag);
+                },
+                Err(status) => {
+                    ensure!(!want, "refused-while-registered", "{step}: message M{msg_tag} of W{} refused ({:?}) although it is registered (registered: {:?})", svc_tag - 10, status, registered);
+                    ensure!(status.code == ErrorCode::ServiceUnavailable, "wrong-refusal-code", "{step}: unregistered W{} refused with {:?}", svc_tag - 10, status);
+                },
+            }
+        }
+    }
+    datacake_rpc::verif::unregister(addr);
+    server.shutdown();
+    let mut labels = vec![];
+    if removal_with_other {
+        labels.push("remove_while_other_registered");
+    }
+    Ok(Pass { nontrivial: removal_with_other, labels })
+}
+
+impl Prop for Wide {
+    type Case = Case;
+
+    fn id(&self) -> &'static str {
+        "C13"
+    }
+
+    fn part(&self) -> &'static str {
+        "many-services"
+    }
+
+    fn width(&self) -> usize {
+        20
+    }
+
+    fn gen(&self, src: &mut Src) -> Case {
+        let n = 1 + src.below(16);
+        Case { seq: (0..n).map(|_| src.below(12) as u8).collect() }
+    }
+
+    fn run(&self, case: &Case) -> Outcome {
+        e3::sim(1, 70_000_000, BTreeMap::new(), |_net| run_wide(case))
+    }
+
+    fn describe(&self, case: &Case) -> Value {
+        json!(case.seq.iter().map(|s| format!("{} W{}", if *s < 6 { "add" } else { "remove" }, s % 6)).collect::<Vec<_>>())
+    }
+
+    fn rule(&self) -> &'static str {
+        "six services with 4,1,2,1,3,1 handlers over four shared message types (17 handler keys whose hashes interleave \
+         across services), random add/remove sequences of length 1-16; after every step all twelve (service,message) \
+         pairs are probed; same oracle; non-trivial = a registered service is removed while another is registered"
+    }
+}
+
+pub fn parts_all() -> Vec<Box<dyn DynPart>> {
+    let mut p = parts();
+    p.push(Box::new(Gen::new(Wide, 20_000, 500_000)));
+    p
+}
